@@ -30,7 +30,7 @@ def cases(tier, seed):
         if not F["md"] and r.random() < 0.7:
             um = set()
             F["md"] = [gen.gen_metadata(r, um) for _ in range(r.choice([1, 2]))]
-        natural = ["bad_root_metadata", "bad_node_metadata", "collision_with_body", "collision_with_body_over", "renamed_node_over"]
+        natural = ["bad_root_metadata", "bad_root_metadata_no_bundle", "bad_node_metadata", "collision_with_body", "collision_with_body_over", "renamed_node_over"]
         yield {"trees": {"F": F, "R": R, "O": other}, "append": ap, "natural": natural, "maxk": 60 if tier == "quick" else 200}
 
 
@@ -98,6 +98,23 @@ def scratch_groups(w, legit):
     return found
 
 
+def half_written_entries(w, before):
+    """Metadata entries called `zz_bad` (the entry every natural metadata failure tries to write and cannot) that sit in the
+    bundle of a node the file held BEFORE the save: the failing save must not leave a partial entry behind on such a node (what a
+    read of the node returns would differ from what it held)"""
+    found = []
+    def rec(o, p):
+        for k, c in o.get("k", []):
+            if "g" in c:
+                if k == "metadatabundle":
+                    if tuple(p) in before and any(n == "zz_bad" for n, _ in c.get("k", [])):
+                        found.append(list(p))
+                    continue
+                rec(c, p + [k])
+    rec(w["h5"], [])
+    return found
+
+
 def run_both(drv, case):
     d = common.fresh_path(suffix="_d")
     os.makedirs(d, exist_ok=True)
@@ -118,12 +135,14 @@ def run_both(drv, case):
 
         fpaths = set(gen.tree_paths(case["trees"]["F"]))
 
+        override = {"before": None, "f0": None}
+
         def attempt(k, natural=None):
             rootR, idx = gen.build_tree(case["trees"]["R"])
             a = ap
             if natural is not None:
                 a = {"target": [], "mode": "a", "tree": True, "emdpath": None}      # whole-root plain append
-            if natural == "bad_root_metadata":
+            if natural in ("bad_root_metadata", "bad_root_metadata_no_bundle"):
                 # the runtime root holds what the file's root holds (entries the append skips), then one it cannot store
                 rootF2, _ = gen.build_tree(case["trees"]["F"])
                 for key in list(rootF2._metadata.keys()):
@@ -172,6 +191,14 @@ def run_both(drv, case):
                     return None, None, None
             work = os.path.join(d, "work.h5")
             shutil.copyfile(base, work)
+            override["before"] = None
+            if natural == "bad_root_metadata_no_bundle":
+                # ... the file's root has NO metadata bundle yet (the save has to create it), everything else as above
+                with h5py.File(work, "a") as f:
+                    if "metadatabundle" in f["R0"]:
+                        del f["R0"]["metadatabundle"]
+                override["before"], _ = node_table(work)
+                override["f0"] = alpha.raw_file(work)["h5"]
             inj = faults.Injector(fail_at=k, trace=True)
             exc = None
             try:
@@ -196,7 +223,7 @@ def run_both(drv, case):
             if any(m["m"] == "untraceable" for m in inj.trace):
                 model_mut.append({"final": "untraceable mutation: " + str([m for m in inj.trace if m["m"] == "untraceable"][0]), "all_executable": False})
                 return None
-            r = drv.ask({"op": "mutations", "h5": f0, "muts": inj.trace})
+            r = drv.ask({"op": "mutations", "h5": (override["f0"] if override["before"] is not None else f0), "muts": inj.trace})
             if "final" not in r:
                 model_mut.append({"final": "driver: " + json.dumps(r)[:200], "all_executable": False})
                 return None
@@ -222,14 +249,16 @@ def run_both(drv, case):
             if after is None:
                 v["file_unreadable"] = True
                 verdicts.append(v); continue
-            lost = [p for p in before if p not in after]
-            changed = [p for p in before if p in after and not still_holds(before[p], after[p])]
+            bref = override["before"] if override["before"] is not None else before
+            lost = [p for p in bref if p not in after]
+            changed = [p for p in bref if p in after and not still_holds(bref[p], after[p])]
             v["lost"] = [list(p) for p in lost]
             v["changed"] = [list(p) for p in changed]
             v["scratch"] = scratch_groups(w, legit)
+            v["half_written"] = half_written_entries(w, bref)
             # individually readable
             unreadable = []
-            for p in before:
+            for p in bref:
                 if p in after and len(p) > 1:
                     try:
                         with common.quiet():
@@ -241,6 +270,47 @@ def run_both(drv, case):
             if na is not None:
                 v["non_additive"] = na
             verdicts.append(v)
+        # one more history: an unrooted node that an earlier TUPLE save of this process has written is saved again, in a LIST, in
+        # plain append mode, now carrying a Metadata value that cannot be stored.  The node is in the file already, so a plain
+        # append has nothing to write for it (and must not touch it); whatever happens, what the file held stays as it was
+        try:
+            import numpy as np
+            work2 = os.path.join(d, "work2.h5")
+            shutil.copyfile(base, work2)
+            u = emdfile.Array(data=np.arange(4.0), name="zz_u")
+            with common.quiet():
+                emdfile.save(work2, (u, {"k": 1}), mode="a")
+            before2, _ = node_table(work2)
+            u.metadata = emdfile.Metadata(name="zz_bad", data={"fine": 1, "x": {1, 2}})
+            exc2 = None
+            try:
+                with common.quiet():
+                    emdfile.save(work2, [u, {"k": 2}], mode="a")
+            except Exception as e:
+                exc2 = e
+            after2, w2 = node_table(work2)
+            v = {"k": "list_after_tuple", "what": "list_after_tuple", "over": False, "natural": "list_after_tuple"}
+            if after2 is None:
+                v["file_unreadable"] = True
+            else:
+                v["lost"] = [list(p) for p in before2 if p not in after2]
+                v["changed"] = [list(p) for p in before2 if p in after2 and not still_holds(before2[p], after2[p])]
+                v["scratch"] = scratch_groups(w2, legit)
+                unreadable = []
+                for p in before2:
+                    if p in after2 and len(p) > 1:
+                        try:
+                            with common.quiet():
+                                emdfile.read(work2, emdpath="/".join(p), tree=False)
+                        except Exception:
+                            unreadable.append(list(p))
+                v["unreadable"] = unreadable
+                v["replaced_paths"] = []
+            if exc2 is not None or damage(v):
+                verdicts.append(v)
+        except Exception as e:
+            verdicts.append({"k": "list_after_tuple", "what": "harness: " + type(e).__name__, "over": False, "natural": "list_after_tuple",
+                             "lost": [], "changed": [], "scratch": [], "unreadable": [], "replaced_paths": []})
         obs = {"total_mutations": total, "verdicts": verdicts, "unfailed_save": "ok" if exc0 is None else alpha.exc_kind(exc0)["err"]}
         if na0 is not None:
             obs["non_additive_in_unfailed_append"] = na0
@@ -265,6 +335,8 @@ def damage(v):
             out.append((key, v[key]))
     if v["scratch"]:
         out.append(("scratch", v["scratch"]))
+    if v.get("half_written"):
+        out.append(("half_written_metadata_entry", v["half_written"]))
     return out
 
 
